@@ -25,6 +25,9 @@ import (
 //	    op := put <id> <name> <group|nil> <val> <ntags> <tag>... | patch <id> <val> <ntags> <tag>...
 //	        | del <id> | link <item> <group> | unlink <item> <group>
 //	    observation: "W <version now current>"
+//	    trailing tokens, ignored by the model: "form <f> at <k> <rkind>" (c18_s3.go) and, on a line with commit flag 0,
+//	    "fail <kind> <k>" = the transaction fails part-way (c18_s6.go: caller | precommit | unique | notfound | veto);
+//	    form cb = member of a batch of concurrent Db.Batch callers (members that commit: "W <version they wrote>")
 //	Q <reader> <tx> <version> <query...>   one query of a read transaction, tagged with the version
 //	    marker the same transaction read (before and after its queries)
 //	    query := load <id> | name <n> | tag <t> | gitems <g> | links <i> | rlinks <g>
@@ -39,6 +42,8 @@ import (
 //	           | at <place> <query>      the same query on the store family at another base path (c18_s2.go:
 //	                                     every writer operation is applied to every family in the same transaction)
 //	    observation: "Q ids <id>..." | "Q item ..." | "Q count n n n" | "Q torn v1 v2" | "Q error ..."
+//	    reader = wb | w | wu and tx = ordinal of a W line: read transactions of the writer goroutine before / after
+//	    a transaction that did not commit (c18_s6.go)
 //	S <symbol>  /  P <filter>    symbol resolution / parsing under concurrency equals the sequential answer: "S same"
 //	X <helper>                   helper hammered from many goroutines gave the right answers: "X ok"
 //
@@ -826,6 +831,7 @@ type c18Rec struct {
 	version    int64
 	q          c18Query
 	obs        string
+	who        string // c18_s6.go: the writer's own read transactions ("wb" | "w" | "wu")
 }
 
 func c18Open(dir string) (*c18World, error) {
@@ -938,6 +944,7 @@ func runC18(o *opts) error {
 
 	var stop int32
 	var mu sync.Mutex
+	var gate sync.RWMutex
 	var recs []c18Rec
 	type spRec struct{ kind, arg, obs string }
 	var sps []spRec
@@ -955,6 +962,7 @@ func runC18(o *opts) error {
 			txn := 0
 			for atomic.LoadInt32(&stop) == 0 || txn < 20 {
 				txn++
+				gate.RLock() // c18_s6.go: the writer holds the readers back around some of its failing transactions
 				// parse + symbol resolution outside of any transaction, racing the other readers
 				f := r.pick(c18Filters)
 				if got := w.parseAnswer(f); got != parseBase[f] {
@@ -1002,6 +1010,7 @@ func runC18(o *opts) error {
 					return nil
 				})
 				kp.check(w, 3)
+				gate.RUnlock()
 				if len(local) > 40000 {
 					break
 				}
@@ -1020,16 +1029,32 @@ func runC18(o *opts) error {
 	c18s3StallState.armed.Store(true)
 	go c18s3StallWatchdog(o.out, 3*time.Second)
 	restoreKinds := []string{"snapshot", "reader"}
+	// the writer's own look after every transaction that did not commit (c18_s6.go)
+	var probes []c18Rec
+	wOrd := 0 // ordinal of the next W line
+	failShare := o.getInt("failshare", 16)
 	writerStep := func(i int) {
 		next := track.clone()
 		var ops []c18Op
-		for k, n := 0, 2+r.intn(5); k < n; k++ {
-			if op, ok := next.genOp(r); ok {
-				ops = append(ops, op)
+		// most transactions commit; some ask for a rollback after their last write; some fail part-way
+		commit, fail := true, c18s6Fail{}
+		switch x := r.intn(100); {
+		case x < 8:
+			commit = false
+		case x < 8+failShare:
+			commit = false
+			ops, fail = c18s6GenFailing(r, next, nil, nil)
+		}
+		if fail.kind == "" {
+			for k, n := 0, 2+r.intn(5); k < n; k++ {
+				if op, ok := next.genOp(r); ok {
+					ops = append(ops, op)
+				}
 			}
 		}
-		commit := !r.chance(10)
 		var werr error
+		var probeQs []c18Query
+		quiet := false
 		form := c18s3Form{name: "flat", at: -1}
 		if o.get("inject", "") == "split" && commit && len(ops) > 1 {
 			// self-test of the comparison (fault injection, never used by the check itself): the
@@ -1048,16 +1073,40 @@ func runC18(o *opts) error {
 			// the form of the transaction: plain, or composed of Db calls that join it; a transaction that rolls
 			// back may have the state before it restored while it is open (c18_s3.go)
 			form = c18s3GenForm(r, len(ops), commit, midTxRestore)
+			form.fail = fail
+			if !commit && r.chance(35) {
+				// through Db.Batch: bbolt runs the function of a failed batch a second time, on its own
+				form.name, form.at = "bu", -1
+			}
 			var snap []byte
 			if form.at >= 0 {
 				if snap, werr = c18s3Snapshot(w.db); werr != nil {
 					form.at = -1
 				}
 			}
+			if !commit {
+				// the writer's own look at what the transaction touches: before and after it with the readers held
+				// back (nothing but the transaction lies in between), or after it with the readers running
+				probeQs = c18s6ProbeQueries(r, c18s6Executed(ops, fail))
+				if quiet = form.at < 0 && r.chance(60); quiet {
+					gate.Lock()
+					probes = append(probes, w.c18s6Probe("wb", wOrd, probeQs)...)
+				}
+			}
 			werr = w.c18s3WriterTx(form, snap, ops, commit, version+1, int64(len(next.items)))
+			if quiet {
+				probes = append(probes, w.c18s6Probe("w", wOrd, probeQs)...)
+				gate.Unlock()
+				stats["uncommitted_with_readers_held"]++
+			} else if !commit {
+				probes = append(probes, w.c18s6Probe("wu", wOrd, probeQs)...)
+			}
 			stats["form_"+form.name]++
 			if form.at >= 0 {
 				stats["restore_during_tx"]++
+			}
+			if !commit {
+				stats["notcommitted_form_"+form.name]++
 			}
 		}
 		parts := make([]string, 0, len(ops))
@@ -1065,14 +1114,25 @@ func runC18(o *opts) error {
 			parts = append(parts, op.String())
 		}
 		cases.line("W %d %d %s%s", b2i(commit), len(ops), strings.Join(parts, " "), form.String())
+		wOrd++
 		switch {
-		case werr == nil:
+		case werr == nil && commit:
 			version++
 			track = next
 			atomic.AddInt64(&w.commits, 1)
 			stats["writer_committed"]++
-		case errors.Is(werr, errC18Rollback):
+		case werr == nil:
+			// the function of the transaction (or a pre-commit action) returned an error and Db reported success:
+			// whether anything of the transaction is visible is what the marker and the looks decide
+			stats["failure_not_reported"]++
+		case fail.kind == "" && errors.Is(werr, errC18Rollback):
 			stats["writer_rolledback"]++
+		case fail.expected(werr):
+			stats["writer_failed_partway"]++
+			stats["fail_"+fail.kind]++
+			if len(c18s6Executed(ops, fail)) > 0 {
+				stats["fail_after_writes"]++
+			}
 		default:
 			stats["writer_failed"]++
 			impl.line("W error %s", hxs(werr.Error()))
@@ -1094,8 +1154,79 @@ func runC18(o *opts) error {
 		}
 		stats["restore_between_tx"]++
 	}
+	// several goroutines call Db.Batch at once: bbolt runs their functions in one bolt transaction; a member
+	// that fails part-way makes it roll everything back and run the others again (c18_s6.go)
+	batchStep := func() {
+		members := c18s6GenBatch(r, track)
+		c18s3Beat("D batch p -1 snapshot 0 (members of a coalesced batch)")
+		// the failing member's W line comes after those of the members that commit
+		var probeQs []c18Query
+		quiet, failedAt := false, -1
+		for _, m := range members {
+			if m.fail.kind != "" {
+				probeQs = c18s6ProbeQueries(r, c18s6Executed(m.ops, m.fail))
+				failedAt = wOrd + len(members) - 1
+				if quiet = r.chance(60); quiet {
+					gate.Lock()
+					probes = append(probes, w.c18s6Probe("wb", failedAt, probeQs)...)
+				}
+			}
+		}
+		ordered := w.c18s6RunBatch(members)
+		if quiet {
+			// the members that committed lie between the two looks as well: the model applies them
+			probes = append(probes, w.c18s6Probe("w", failedAt, probeQs)...)
+			gate.Unlock()
+			stats["uncommitted_with_readers_held"]++
+		} else if failedAt >= 0 {
+			probes = append(probes, w.c18s6Probe("wu", failedAt, probeQs)...)
+		}
+		c18s3Beat("between transactions")
+		txids := map[int]int{}
+		for _, m := range ordered {
+			parts := make([]string, 0, len(m.ops))
+			for _, op := range m.ops {
+				parts = append(parts, op.String())
+			}
+			form := c18s3Form{name: "cb", at: -1, rkind: "snapshot", fail: m.fail}
+			commit := m.fail.kind == ""
+			cases.line("W %d %d %s%s", b2i(commit), len(m.ops), strings.Join(parts, " "), form.String())
+			wOrd++
+			stats["batch_members"]++
+			switch {
+			case m.err == nil && commit:
+				version++
+				atomic.AddInt64(&w.commits, 1)
+				stats["writer_committed"]++
+				txids[m.txid]++
+				impl.line("W %d", m.got)
+			case m.err == nil:
+				stats["failure_not_reported"]++
+				impl.line("W %d", w.currentVersion())
+			case m.fail.expected(m.err):
+				stats["writer_failed_partway"]++
+				stats["fail_"+m.fail.kind]++
+				stats["batch_members_failed"]++
+				impl.line("W %d", w.currentVersion())
+			default:
+				stats["writer_failed"]++
+				impl.line("W error %s", hxs(m.err.Error()))
+			}
+		}
+		for _, n := range txids {
+			if n > 1 {
+				stats["batch_members_coalesced"] += n
+			}
+		}
+		stats["batches"]++
+	}
+	batchEvery := o.getInt("batchevery", 11)
 	for i := 0; i < nWriterTx; i++ {
-		writerStep(i)
+		if batchEvery > 0 && i%batchEvery == batchEvery-1 && o.get("inject", "") == "" {
+			batchStep()
+		} else {
+			writerStep(i)
+		}
 		if o.get("restores", "on") == "on" && i > 10 && r.chance(4) {
 			restoreStep()
 		}
@@ -1122,6 +1253,11 @@ func runC18(o *opts) error {
 		return recs[i].tx < recs[j].tx
 	})
 	seenVersions := map[int64]bool{}
+	for _, rc := range probes {
+		cases.line("Q %s %d %d %s", rc.who, rc.tx, rc.version, rc.q.String())
+		impl.line("%s", rc.obs)
+		stats["probe_queries"]++
+	}
 	for _, rc := range recs {
 		cases.line("Q %d %d %d %s", rc.reader, rc.tx, rc.version, rc.q.String())
 		impl.line("%s", rc.obs)
@@ -1258,7 +1394,9 @@ func c18Replay(w *c18World, path string, cases, impl *lineWriter) error {
 				snap, _ = c18s3Snapshot(w.db)
 			}
 			werr := w.c18s3WriterTx(form, snap, ops, commit, version+1, -1)
-			if werr == nil {
+			if werr == nil && !commit {
+				impl.line("W %d", w.currentVersion())
+			} else if werr == nil {
 				version++
 				atomic.AddInt64(&w.commits, 1)
 				// the count marker is recomputed so that a replay keeps the writer's invariant
@@ -1270,7 +1408,7 @@ func c18Replay(w *c18World, path string, cases, impl *lineWriter) error {
 					return ctx.Tx().Bucket([]byte("r")).Put([]byte("count"), []byte(strconv.FormatInt(c, 10)))
 				})
 				impl.line("W %d", w.currentVersion())
-			} else if errors.Is(werr, errC18Rollback) {
+			} else if (form.fail.kind == "" && errors.Is(werr, errC18Rollback)) || form.fail.expected(werr) {
 				impl.line("W %d", w.currentVersion())
 			} else {
 				impl.line("W error %s", hxs(werr.Error()))
